@@ -170,7 +170,9 @@ class Adversarial:
             m = g.random(shape)
             q = low + (high - low) * g.integers(0, 4, shape) / 4.0
             v = np.where(m < 0.5, q, v)
-            v = np.where(m < 0.15, low, v)
+            tiny = low + (high - low) * np.array([2.0 ** -40, 1e-12, 2.0 ** -52, 1e-9])[g.integers(0, 4, shape)]
+            v = np.where(m < 0.25, tiny, v)       # a hair above the lower end: lands just outside / inside a border
+            v = np.where(m < 0.12, low, v)
             return v
         u = g.random()
         if high == TWO_PI or abs(high - TWO_PI) < 1e-9:
@@ -194,6 +196,8 @@ class Adversarial:
 
     def pareto(self, a, size=None):
         v = self.g.pareto(a, size)
+        m = self.g.random(np.shape(v))
+        v = np.where(m < 0.3, np.array([1e-12, 2.0 ** -40, 1e-9, 0.0])[self.g.integers(0, 4, np.shape(v))], v)
         return v
 
 
@@ -496,17 +500,23 @@ def compare_hyper(ctx, r, o):
         raise RuntimeError(f"c19 driver error {o['error']} on {c}")
     keep = [t == "1" for t in o["keep"][1:]]
     fin, out = r["fin"], r["out"]
-    # near-degenerate: a rebuilt coordinate within 1e-12 of 0 or 1 but not exactly on it
+    # every returned point bitwise one of the kicked points rebuilt from the draws?  then the comparison is exact
+    # and nothing is near-degenerate; otherwise (a rewrite that rounds differently) a rebuilt coordinate within
+    # 1e-12 of 0 or 1, but not exactly on it, makes the case undecidable here: counted and skipped
+    fins = set(tuple(p) for p in fin.tolist())
+    outl = [tuple(p) for p in out.tolist()]
+    exact = all(p in fins for p in outl)
     d = np.minimum(np.abs(fin), np.abs(fin - 1))
-    if np.any((d < TOL) & (d > 0)):
+    if not exact and np.any((d < TOL) & (d > 0)):
         ctx.res.skip("hyperuniform-coordinate-within-1e-12-of-border")
         return
+    if np.any((d < TOL) & (d > 0)):
+        ctx.res.extra["hyperuniform_near_border_points_decided_exactly"] = ctx.res.extra.get("hyperuniform_near_border_points_decided_exactly", 0) + int(np.sum((d < TOL) & (d > 0)))
     on_border = np.any(d == 0, axis=1) & np.all((fin >= 0) & (fin <= 1), axis=1)
-    outl = [tuple(p) for p in out.tolist()]
     j = 0
     nborder = 0
     for i, p in enumerate(fin):
-        present = j < len(outl) and np.allclose(outl[j], p, rtol=0, atol=1e-12)
+        present = j < len(outl) and (outl[j] == tuple(p.tolist()) if exact else np.allclose(outl[j], p, rtol=0, atol=1e-12))
         if keep[i]:
             if not present:
                 ctx.k_mismatch(f"hyperuniform: point {p.tolist()} strictly inside the unit square is missing from the output (or out of order)", c)
